@@ -523,6 +523,21 @@ func constructed() map[string]*spb.AFTOperation {
 		out["junk-mac-address-nh-"+act] = base(&gen.Op{NI: D, Kind: gen.NH, Act: act, Key: "2", IP: "192.0.2.1", MAC: "00:00:5e:00:53"})
 		out["pushed-label-out-of-range-nh-"+act] = base(&gen.Op{NI: D, Kind: gen.NH, Act: act, Key: "1", IP: "192.0.2.1", Pushed: []uint64{100, 1048576}})
 	}
+	// the same member defect in wide groups (sizes around powers of two): distinct members,
+	// the zero index first, last or in the middle
+	for _, n := range []int{8, 63, 64, 65, 128, 257} {
+		for _, pos := range []int{0, n / 2, n - 1} {
+			var hops []gen.Hop
+			for i := 0; i < n; i++ {
+				idx := uint64(i + 1)
+				if i == pos {
+					idx = 0
+				}
+				hops = append(hops, gen.Hop{Index: idx})
+			}
+			out[fmt.Sprintf("zero-member-index-wide-%d-at-%d", n, pos)] = base(&gen.Op{NI: D, Kind: gen.NHG, Act: gen.ADD, Key: "1", Hops: hops})
+		}
+	}
 	out["empty-group-with-color"] = base(&gen.Op{NI: D, Kind: gen.NHG, Act: gen.ADD, Key: "1", Backup: gen.U(2), Color: gen.U(3)})
 	out["zero-member-index-only"] = base(&gen.Op{NI: D, Kind: gen.NHG, Act: gen.ADD, Key: "1", Hops: []gen.Hop{{Index: 0, Weight: gen.U(2)}}})
 	out["zero-member-index-replace"] = base(&gen.Op{NI: D, Kind: gen.NHG, Act: gen.REPLACE, Key: "1", Hops: []gen.Hop{{Index: 0}, {Index: 1}}})
